@@ -69,6 +69,14 @@ CHECKS = {
    technique="property-based testing (rapid) over generated option sets and inputs with one sub-oracle per clause: differential against the reference model + setters (remove-*), list-model (sort), failure-state oracle (default-scheme), metamorphic neutrality (conservative extensions, alone and combined), effect oracles (collapse, replaced sets, skip-equals, added scheme)",
    text="Each case draws a clause of the statement with its option set and input. Neutrality: for 1..4 of 14 parser options with generated encode sets / added schemes, if no option's trigger occurs in the input text the result must equal the default parser's (through url.NewParser and canonicalizer.New). Effects are checked against explicit oracles per clause.",
    ref="DESIGN.md §6 C16", note=MODEL),
+ "C17": dict(
+   technique="property-based testing (rapid) of the idempotence law p(p(x)) = p(x) over generated profiles (predefined and composed from the canonicalizer's options) and inputs (arbitrary inputs; grammar-generated web URLs in random spellings)",
+   text="For WhatWg, WhatWgSortQuery and random compositions of the six canonicalizer options any generated input, and for GoogleSafeBrowsing and Semantic every URL of the ordinary-web-URL grammar in a random spelling (nested encodings, dot segments, case, ports, whitespace), is canonicalized twice; the second result must parse and equal the first.",
+   ref="DESIGN.md §6 C17, §7.7", note="trusted base: the grammar and renderer in harness/props/web.go, rapid; known findings attributed by exact-result or narrow classifiers (c17.go)"),
+ "C18": dict(
+   technique="property-based metamorphic testing (rapid): one abstract web URL rendered in two independently drawn equivalent spellings (and a plain one) must canonicalize to one string under generated profiles",
+   text="An abstract ordinary web URL is rendered twice with independent random choices among exactly the variations the statement lists, per profile class; both canonical strings must be equal and equal to the canonical form of the plain rendering, which ties the class to one representative.",
+   ref="DESIGN.md §6 C18", note="trusted base: the grammar and renderer in harness/props/web.go, rapid; findings KF-C18-empty-fragment and KF-C18-nested-dots attributed by counterfactual classifiers"),
 }
 
 NOT_YET = {}
